@@ -42,6 +42,7 @@ type hdStats struct {
 	Crashed      int            `json:"crashed_histories"`
 	SlowListener int            `json:"histories_with_a_slow_action_listener"`
 	FailedStarts int            `json:"hands_the_backend_refused_to_create"`
+	ByLeaves     int            `json:"bystander_listed_first_left_mid_hand"`
 	MaxSteps     int            `json:"max_backend_calls_per_hand"`
 	Distinct     int            `json:"distinct_histories"`
 	Samples      []string       `json:"samples"`
@@ -63,6 +64,7 @@ func mergeHD(d, s *hdStats) {
 	d.Stuck += s.Stuck
 	d.SlowListener += s.SlowListener
 	d.FailedStarts += s.FailedStarts
+	d.ByLeaves += s.ByLeaves
 	d.Withheld += s.Withheld
 	d.LateExtends += s.LateExtends
 	if s.MaxSteps > d.MaxSteps {
@@ -95,6 +97,7 @@ type hdHist struct {
 	snapPos     int   // snapshots already written
 	actPos      int   // action events already consumed
 	faultPct    int
+	bystander   bool // a never-seated-in player listed first is still at the table
 	probePct    int
 	internalPct int
 	t0          int64 // wall-clock second before the call that may have caused the states being written
@@ -634,6 +637,14 @@ func (h *hdHist) playHandSteps(maxSteps int) bool {
 				schedBarrier(2)
 				h.flush() // the extension re-publishes the table (same hand state, new deadline)
 			}
+			if h.bystander && h.r.Intn(4) == 0 {
+				h.bystander = false
+				err := h.rig.te.PlayersLeave([]string{pid(90)})
+				h.line("# the bystander (listed first, never dealt in) leaves: %s", tbErrName(err))
+				h.st.ByLeaves++
+				schedBarrier(2)
+				h.flush() // the departure re-publishes the table (same hand state)
+			}
 			kind, arg := chooseMove(h.r, gs, p)
 			if kind == "" {
 				h.line("hd stuck reason=current-player-has-no-action")
@@ -731,6 +742,15 @@ func genHDHistory(r *rand.Rand, st *hdStats, hid int, hands int, faultPct, probe
 	st.Histories++
 	seats := r.Perm(maxSeat)
 	ps := []string{}
+	// a bystander who took his seat before everybody else and never sits in: he stands first in the player list, and gets
+	// up in the middle of a hand — everybody's index in the list shifts under the hand's own list
+	if withholdAt == "" && n+2 <= maxSeat && r.Intn(3) == 0 {
+		if rig.te.PlayerReserve(pokertable.JoinPlayer{PlayerID: pid(90), RedeemChips: 500, Seat: seats[maxSeat-1]}) == nil {
+			h.bystander = true
+			schedBarrier(3)
+			time.Sleep(500 * time.Microsecond)
+		}
+	}
 	for i := 0; i < n; i++ {
 		id := i + 1
 		chips := int64(15 + r.Intn(400))
